@@ -131,3 +131,42 @@ def run(res, a):
                                                 "required": "two builds of the same composition give different ids (ids must depend on construction order only)",
                                                 "failing_input_found": True, "replay": "python3 tools/check.py C14 --replay <this file>"}))
             break
+    # the same objects handed to hc.NewIPTransport, directly and after attempts that failed (a refused setup code):
+    # the ids the objects end up with are those of a plain container build (what the model computes for the composition)
+    import os
+    rng = core.rng_for(ID + "/transport", res.seed)
+    _, svcs = c15.names()
+    svcs = [s for s in svcs if s != "NewAccessoryInformation"]
+    tc = []
+    if a.replay:
+        rep = json.load(open(a.replay))
+        if rep["case"].startswith("idst "):
+            tc = [rep["case"].split(" ")[1]]
+    else:
+        for i in range(6 if a.tier == "quick" else 60):
+            k = rng.choice([1, 2, 3, 6])
+            eids = rng.sample([3, 7, 50, 1000], k) if rng.random() < 0.3 else [0] * k
+            tc.append(";".join("%d:%s" % (e, ",".join(rng.choice(svcs) + rng.choice(["", "", "+h", "^2"]) for _ in range(rng.randrange(0, 4)))) for e in eids))
+    lines, want = [], {}
+    for i, spec in enumerate(tc):
+        lines.append("tb%d ids %s" % (i, spec))
+        for mode in ("fresh", "retry", "retry2"):
+            lines.append("t%d%s idst %s %s" % (i, mode, spec, mode))
+    if lines:
+        obs = core.shard_run(os.path.join(core.BUILD, "hcdrv"), FAMILY, lines)
+        bad = 0
+        for i, spec in enumerate(tc):
+            base = " ".join(t for t in obs.get("tb%d" % i, "NO-OUTPUT").split(" ") if not t.startswith(("sig=", "json", "wf=")) and t[:1] == "a")
+            for mode in ("fresh", "retry", "retry2"):
+                o = obs.get("t%d%s" % (i, mode), "NO-OUTPUT")
+                res.cases += 1
+                res.count("kind:transport/" + mode)
+                if o != base:
+                    bad += 1
+                    if bad == 1:
+                        res.violations.append(("transport", {"property": ID, "family": FAMILY, "seed": res.seed, "case": "idst %s %s" % (spec, mode),
+                                                             "implementation_observed": o[:600], "container_build": base[:600],
+                                                             "required": "the accessories handed to NewIPTransport%s end up with other ids than a plain build of the same composition (ids must depend on construction order only)" % (
+                                                                 "" if mode == "fresh" else " after %d failed attempt(s) with the same objects" % (1 if mode == "retry" else 2)),
+                                                             "failing_input_found": True, "replay": "python3 tools/check.py C14 --replay <this file>"}))
+        res.obligations.append(("implementation-side runs: ids of accessories handed to NewIPTransport (fresh, after failed attempts)", bad == 0, "%d runs, %d differing" % (3 * len(tc), bad)))
